@@ -42,7 +42,7 @@ def run_mc(ctx, ns):
     ctx.traces += n
     ctx.evaluations += n
     ctx.nontrivial += n
-    ctx.exhaustive = True
+    ctx.parts[-1]['exhaustive_within_bound'] = True        # the bounded part is complete; the run as a whole also samples beyond it
     ctx.parts[-1].update({'cases': n, 'violating': len(dis), 'not_linear_notes': notes})
     ctx.sample({'mc_phase_case': {'n': ns, 'extrema': [1, 4, 7], 'peak_first': True, 'midpoints': [1, 7]},
                 'space': 'every valid cyclepoint placement on %d samples (%d cases)' % (ns, n)})
